@@ -146,6 +146,7 @@ func (i *uint32InternalNode) deleteKey(minSize int, key uint32) bool {
 		defer leftSibling.unlock()
 		if leftCount = leftSibling.count(); leftCount > minSize {
 			child.adoptFromLeft(leftSibling)
+			i.runts[index] = child.smallest()
 			return false
 		}
 	}
